@@ -17,7 +17,7 @@ CONSTANTS Rids,        \* request identifiers
           Outcomes,    \* subset of AllOutcomes
           Options      \* subset of {"unset","Continue","Stop","Undo"}
 
-AllOutcomes == {"success", "successSetsId", "successClearsId", "discover", "typedError", "plainError", "panic", "unrouted", "critical"}
+AllOutcomes == {"success", "successSetsId", "successClearsId", "discover", "retriedSuccess", "typedError", "plainError", "panic", "unrouted", "critical"}
 
 VARIABLES st,       \* st[r] \in {"idle","validate","items","done"}
           req,      \* req[r]   the request message descriptor
@@ -98,8 +98,11 @@ Exec(r) ==
     /\ st[r] = "items" /\ idx[r] <= Len(req[r].items) /\ ~stopped[r]
     /\ LET i == idx[r]
            o == req[r].items[i].out
-       IN /\ called' = [called EXCEPT ![r] = IF CallsHandler(o) THEN Append(@, i) ELSE @]
-          /\ reads' = [reads EXCEPT ![r] = IF CallsHandler(o) THEN Append(@, <<i, ph[r]>>) ELSE @]
+       \* ("retriedSuccess": the handler fails once, an item middleware of the application calls its continuation again and that
+       \* attempt succeeds - the handler runs twice and reads the same placeholder twice, the item succeeds, nothing is cleared)
+       IN /\ called' = [called EXCEPT ![r] = IF o = "retriedSuccess" THEN @ \o <<i, i>> ELSE IF CallsHandler(o) THEN Append(@, i) ELSE @]
+          /\ reads' = [reads EXCEPT ![r] = IF o = "retriedSuccess" THEN @ \o <<<<i, ph[r]>>, <<i, ph[r]>>>>
+                                           ELSE IF CallsHandler(o) THEN Append(@, <<i, ph[r]>>) ELSE @]
           /\ resp' = [resp EXCEPT ![r] = Append(@, [idx |-> i,
                                                      status |-> IF Failed(o) THEN "Failed" ELSE "Success",
                                                      reason |-> Reason(o)])]
